@@ -17,11 +17,18 @@ from c10 import check_text
 def run(tier):
     C = vp.Check("C04", tier, "model_checking")
     maxchain = 3 if tier == "quick" else 4
-    with open(vp.SPEC + "/MC_Lineage_run.cfg", "w") as f:
-        f.write(open(vp.SPEC + "/MC_Lineage.cfg").read().replace("MaxChain = 3", "MaxChain = %d" % maxchain))
-    r = vp.tlc("MC_Lineage", "MC_Lineage_run", workers=8, timeout=6000, name="c04", xmx="24g")
-    C.add_tlc(r, "MC_Lineage MaxChain=%d" % maxchain)
+    # chains of 3 with every block shape (siblings and three levels of nesting included); in the thorough tier also chains
+    # of 4 without those two shapes (with them the configurations of 4 levels run into the millions)
+    r = vp.tlc("MC_Lineage", "MC_Lineage", workers=8, timeout=6000, name="c04", xmx="24g")
+    C.add_tlc(r, "MC_Lineage MaxChain=3, all block shapes")
     vecs = r.tags["VEC"]
+    if tier != "quick":
+        with open(vp.SPEC + "/MC_Lineage_run.cfg", "w") as f:
+            f.write(open(vp.SPEC + "/MC_Lineage.cfg").read().replace("MaxChain = 3", "MaxChain = 4").replace("Extras = TRUE", "Extras = FALSE"))
+        r4 = vp.tlc("MC_Lineage", "MC_Lineage_run", workers=8, timeout=6000, name="c04-4", xmx="24g")
+        C.add_tlc(r4, "MC_Lineage MaxChain=4, without the sibling / three-level shapes")
+        seen4 = set(json.dumps(v["g"], sort_keys=True) for v in vecs)
+        vecs = vecs + [v for v in r4.tags["VEC"] if json.dumps(v["g"], sort_keys=True) not in seen4]
     # longer chains with block a only (absent / defined / defined with super() per level): gaps between definers
     slim = 5 if tier == "quick" else 5
     with open(vp.SPEC + "/MC_Lineage_run.cfg", "w") as f:
